@@ -6,7 +6,7 @@ PLAN = dict(
           "reproducible), then the serializer runs against a destination of capacity k for EVERY k in [0, len(O)] x fault mode {reject: the write that "
           "does not fit returns (0, err) and the destination keeps failing; short: it accepts the remaining capacity and returns (n, err); "
           "reject-transient: as reject but later writes that fit are still accepted (disk-full semantics)} x {Write-only destination, destination "
-          "implementing io.ReaderFrom under the same capacity rule}. Artifacts above 64 KiB (quick: CBOR byte string, cert chain with an 80000-byte OCSP "
+          "implementing io.ReaderFrom under the same capacity rule}; the failing destination returns a private sentinel error and, in further passes over the same positions, io.EOF, io.ErrShortWrite, io.ErrClosedPipe and io.ErrUnexpectedEOF (error values that code may mistake for a normal end). Artifacts above 64 KiB (quick: CBOR byte string, cert chain with an 80000-byte OCSP "
           "response, exchange, MI stream, bundle; thorough also above 1 MiB), whose large value comes LAST in the output, are too costly for every k "
           "(quadratic): there k runs over the first and last 300 positions, +-2 around every multiple of 4 KiB and every power of two (from both ends) "
           "and a stride of 997 (class artifact>64KiB-sampled-positions). Oracle: k < len(O) => non-nil error; accepted bytes are a prefix of O; bundle "
@@ -32,5 +32,5 @@ PLAN = dict(
              ("fault", "ser:sxg-headers"), ("fault", "ser:sxg-signedmsg"), ("fault", "ser:certchain"), ("fault", "certchain:1"), ("fault", "certchain:3"),
              ("fault", "ser:mice"), ("fault", "mice:draft02"), ("fault", "mice:draft03"), ("fault", "ser:cbor"),
              ("fault", "control-k=len"), ("fault", "sink-readerfrom"), ("fault", "sink-plain"),
-             ("fault", "mode-short"), ("fault", "mode-reject"), ("fault", "mode-reject-transient"), ("fault", "artifact>32KiB")],
+             ("fault", "fails-with:eof"), ("fault", "fails-with:short-write"), ("fault", "fails-with:closed-pipe"), ("fault", "mode-short"), ("fault", "mode-reject"), ("fault", "mode-reject-transient"), ("fault", "artifact>32KiB")],
 )
